@@ -1,0 +1,15 @@
+//go:build verif
+
+package web
+
+import "github.com/gorilla/sessions"
+
+// This file exists only under the `verif` build tag. It lets the external
+// verification harness interpose on the session store (to place scheduling
+// points around Save); it changes no behaviour.
+
+// VerifStore returns the session store InitStore installed.
+func VerifStore() sessions.Store { return sessionStore }
+
+// VerifSetStore replaces the session store.
+func VerifSetStore(s sessions.Store) { sessionStore = s }
